@@ -515,7 +515,7 @@ def persons_expressible(ps):
 def _inside_braces(t):
     return '{' in t
 
-def db_strings(w):
+def db_strings(w, preamble=True):
     for key, otype, fields, persons in w[0]:
         for k, v in fields:
             yield S(v)
@@ -524,8 +524,9 @@ def db_strings(w):
                 for part in p:
                     for t in part:
                         yield S(t)
-    for x in w[1]:
-        yield S(x)
+    if preamble:
+        for x in w[1]:
+            yield S(x)
 
 def in_domain(w, fmts):
     """the quantifier of the property: brace-balanced values (whitespace-normalised for BibTeX,
@@ -553,17 +554,15 @@ def in_domain(w, fmts):
             rseen.add(role.lower())
             if not persons_expressible(ps):
                 return False
-    for s in db_strings(w):
+    # field values and name tokens one by one; the preamble as the TEXT it is (the concatenation of its strings)
+    pre = ''.join(S(x) for x in w[1])
+    for s in list(db_strings(w, preamble=False)) + [pre]:
         if not balanced(s) or max_depth(s) >= 90:
             return False
         if 0 in fmts and not ws_normalised(s):
             return False
         if 1 in fmts and not xml_ok(s):
             return False
-    if len(w[1]) > 0 and not all(S(x) for x in w[1]):
-        return False
-    if 0 in fmts and w[1] and not ws_normalised(''.join(S(x) for x in w[1])):
-        return False
     return True
 
 def view(w, lower_ids=False, keep_preamble=True, lower_types=True):
@@ -815,6 +814,12 @@ def unicode_persons():
             [['Jos\u00e9'], [], ['de', 'la'], ['\u00d1u\u00f1ez', '\u00c1lvarez'], []],
             [['\u05d3\u05d5\u05d3'], [], [], [], []]]
 
+# preambles built from several strings: white space at the seams (either side), a brace group split across two strings,
+# empty strings in between; what is compared is the preamble TEXT (data.preamble, the concatenation)
+PREAMBLES = [['\\PBX ', 'generated'], ['\\PBX', ' generated'], ['a ', 'b ', 'c'], ['{a', 'b}'], ['{a ', ' b}'], ['\\def\\x{', 'y}', ' z'],
+             ['a', '', 'b'], ['', 'a'], ['a', ''], ['x ', '', 'y'], ['"q', 'r"'], ['p', '{q}', 'r s'], ['\\newcommand{\\noopsort}[1]{}', '\\newcommand{\\x}{ y }'],
+             ['a ', ' b'], [' lead', 'trail '], ['one'], ['50% ', 'off'], ['caf\u00e9 ', 'cr\u00e8me']]
+
 def explicit_persons():
     """persons given by explicit parts, including those without a last name"""
     A, B, V, L, J = ['Plato'], ['Bb'], ['von'], ['Last'], ['Jr']
@@ -893,7 +898,7 @@ def rand_db(rng, bad=False, five=False, allow_known=False, maxn=4):
     keys = rng.sample(KEYS, n) if not bad else [rng.choice(KEYS + ['K', 'key1', 'a b', 'c,d', '']) for _ in range(n)]
     pre = []
     if rng.random() < 0.4:
-        pre = [rng.choice(['\\newcommand{\\noopsort}[1]{}', 'x', '"p"', '\\def\\x{y}'] + (VALUES if bad else []) + (['50% {a}', '#1'] if five else [])) for _ in range(rng.randint(1, 2))]
+        pre = rng.choice(PREAMBLES) if rng.random() < 0.4 else [rng.choice(['\\newcommand{\\noopsort}[1]{}', 'x', '"p"', '\\def\\x{y}'] + (VALUES if bad else []) + (['50% {a}', '#1'] if five else [])) for _ in range(rng.randint(1, 2))]
     return [[rand_entry(rng, k, bad, five, allow_known) for k in keys], pre]
 
 def db_of(value=None, person=None, key='k', typ='book', field='title', role='author', pre=()):
@@ -1179,6 +1184,20 @@ def _gen(tier, rng):
     for i in range(20 if quick else 300):
         steps = [[rng.choice([0, 0, 1, 2]), rng.randrange(len(ENCODINGS)), rng.randint(0, 1), rng.choice(uni_dbs + [ascii_db, latin_db])] for _ in range(rng.randint(2, 3))]
         yield ('history', 21, [steps, 0])
+    # ---- multi-string preambles in every kind of round trip
+    kn0 = parse_person('Donald E. Knuth')
+    for i, pre in enumerate(PREAMBLES):
+        for w in (db_of('T', kn0, pre=pre), [[], pre], [[['k1', 'book', [['title', 'A']], []], ['k2', 'misc', [], []]], pre]):
+            for f in (0, 1, 2):
+                yield ('preamble_seams', 12, [f, w])
+            yield ('preamble_seams', 4, [w]); yield ('preamble_seams', 6, [w]); yield ('preamble_seams', 11, [w])
+            yield ('preamble_seams', 15, [w]); yield ('preamble_seams', 16, [w])
+        w = db_of('T', kn0, pre=pre)
+        for c in ([0, 0], [0, 2], [2, 0], [0, 2, 0], [2, 2]):
+            yield ('preamble_seams', 13, [c, i % 2, w])
+        for enc in (0, 2, 4):
+            yield ('preamble_seams', 21, [[[0, enc, i % 2, w], [2, enc, 1 - i % 2, w]], 0])
+        yield ('preamble_seams', 19, [1 + i % 5, i % 3, w])
     # ---- shared Entry objects: B derived from A's Entry objects in every public way, THEN A and B are written / read
     kn = parse_person('Donald E. Knuth')
     shared = [[[['Knuth84', 'Book', [['Title', 'A {B}'], ['YEAR', '1984']], [['author', [kn]]]], ['k2', 'misc', [['note', 'x']], []], ['UPPER', 'Article', [], [['Editor', [kn, parse_person('de la Fontaine, Jean')]]]]], ['pre']],
@@ -1294,7 +1313,7 @@ RULE = ('pinned: the inputs of the findings (F18 five characters, FC02b field "t
         'persons: 19 parsed names (parts of up to 6 tokens) x 4 role spellings x 3 formats and all part lists over a pool of 8 tokens (empty, trailing backslash, ~, braced); '
         'identifiers: 14 keys x 3 types x 5 field names x roles x formats/lower/repr; every chain of <= 3 formats x preserve_case. '
         'random: databases of 1-4 entries with 0-4 fields, 0-2 roles of 1-3 persons (parsed names or random token lists), optional preamble; '
-        'unicode_encodings / history: non-ASCII values, keys and name tokens (accented Latin, Cyrillic, Greek, Hebrew, Arabic, Devanagari, CJK, combining marks, astral) x formats x writer encoding (None, utf-8, ascii, latin-1, utf-16) x string / file, and histories of 2-3 such writes with different encodings in one process, each judged on its own (identity whenever the encoding can carry the text); shared_entries: a second database B is built from the Entry OBJECTS of A in every public way (constructor with a mapping / with re-keyed pairs / with wanted_entries in another spelling, add_entry and add_entries under other keys and letter case, lower()) and only then A and B are written and read back in every format, through two chains, pickled and repr-ed: each must keep its own keys; malformed: unbalanced / un-normalised values, repeated keys and fields, persons with empty or spaced tokens; reader trees: the YAML / XML tree of random databases and token-level damaged copies; '
+        'preamble_seams: preambles built from several strings (white space at a seam on either side, a brace group split across two strings, empty strings) in every kind of round trip, compared as the preamble text; unicode_encodings / history: non-ASCII values, keys and name tokens (accented Latin, Cyrillic, Greek, Hebrew, Arabic, Devanagari, CJK, combining marks, astral) x formats x writer encoding (None, utf-8, ascii, latin-1, utf-16) x string / file, and histories of 2-3 such writes with different encodings in one process, each judged on its own (identity whenever the encoding can carry the text); shared_entries: a second database B is built from the Entry OBJECTS of A in every public way (constructor with a mapping / with re-keyed pairs / with wanted_entries in another spelling, add_entry and add_entries under other keys and letter case, lower()) and only then A and B are written and read back in every format, through two chains, pickled and repr-ed: each must keep its own keys; malformed: unbalanced / un-normalised values, repeated keys and fields, persons with empty or spaced tokens; reader trees: the YAML / XML tree of random databases and token-level damaged copies; '
         '.bib texts: writer output and character-level damaged copies. '
         'distinct = distinct (function, argument); non-trivial = the model reads back at least one entry (round trips) / produces a non-empty result.')
 EXHAUSTIVE = {'quick': 'Writer.quote on all strings over {a,{,},",\\,space} of length <= 5; check_braces <= 4; latex encoder on all strings over {a,~,space,#,\\,{} of length <= 4; value pool x formats; person pool x roles x formats; all format chains of length <= 3 x preserve_case',
